@@ -713,9 +713,10 @@ class Remoter(tyming.Tymee):
 
     def refresh(self):
         """
-        Restart tymer
+        Restart tymer at current tyme so tymeout runs from latest activity
         """
-        self.tymer.restart()
+        if self.tymth:  # wound to a tymist
+            self.tymer.start()
 
 
     def receive(self):
